@@ -254,6 +254,7 @@ func (propC18) Gen(r *Rng, run uint64, tier string) *Plan {
 		v := genVariant(vr.SubN("v", uint64(i)), sizes, leh, i > 0, true)
 		if raceMode() && i%2 == 1 {
 			v.Mode = "parallel"
+			v.GateReads = false // the runtime interleaves; the detector judges
 		}
 		p.Variants = append(p.Variants, v)
 	}
